@@ -197,8 +197,10 @@ def _num(a: int, ty: str):
     raise MachineryError(f"typing {ty}")
 
 
-def utils_trace(beh) -> list[dict]:
-    """beh = [{"act": "map"|"sleep", "a": [...], "ty": ..., "via": ...}...] (arguments in units of 1/8)."""
+def utils_trace(beh, offset: int = 0) -> list[dict]:
+    """beh = [{"act": "map"|"sleep", "a": [...], "ty": ..., "via": ...}...] (arguments in units of 1/8).
+    offset: every map call is executed with value, from_low and from_high translated by that integer (the logged arguments
+    stay untranslated: the affine map does not depend on where its source window sits)."""
     import Reduino.Utils as UT
     calls = beh["h"] if isinstance(beh, dict) else beh
     evs = []
@@ -211,7 +213,10 @@ def utils_trace(beh) -> list[dict]:
 
         try:
             if c["act"] == "map":
-                r = UT.map(*[_num(a, c["ty"]) for a in c["a"]])
+                args = [_num(a, c["ty"]) for a in c["a"]]
+                if offset and c["ty"] != "bool":
+                    args[:3] = [x + offset for x in args[:3]]
+                r = UT.map(*args)
             elif c["act"] == "sleep":
                 d = _num(c["a"][0], c["ty"])
                 if c["via"] == "inject":
